@@ -51,6 +51,9 @@ func runC05(r *Run) {
 		c05SlowHandler(r)
 	}
 	if r.NumViolations() == 0 {
+		c05SharedMD(r)
+	}
+	if r.NumViolations() == 0 {
 		hooks.Reset(true)
 		c05IdsAfterReadFailure(r)
 		hooks.Reset(false)
